@@ -26,7 +26,7 @@ TMPD = "/dev/shm/agent-c03" if os.path.isdir("/dev/shm/agent-c03") else None
 JOBS = 4
 FRONTENDS = ["e2fsck_journal_only", "e2fsck_full", "debugfs_jr"]
 # deviations of the pinned tree modelled in the conformance cfg (TRUE = what the code does); see fixes/C03_known_findings.txt
-CONF_DEVS = dict(DevReplayPastBadTag="TRUE", DevScanAbort="TRUE", DevAsyncLastBadCommit="FALSE")
+CONF_DEVS = dict(DevReplayPastBadTag="TRUE", DevScanAbort="TRUE", DevAsyncLastBadCommit="FALSE", DevCommitBreakContinues="FALSE")
 PROFILES = {
     "ext4_1k": ["-t", "ext4", "-b", "1024", "-J", "size=1"],
     "ext3_1k": ["-t", "ext3", "-b", "1024", "-J", "size=1"],
@@ -57,14 +57,14 @@ def load_known(vd):
 # ---------------------------------------------------------------------------------------------- model checking
 def mc_constants(**kw):
     c = dict(L=6, Blocks="{1, 2}", MaxTxn=2, MaxTags=1, MaxDmg=1, Csum=3, Async=0, EscSet="{0}", OldTime=0,
-             DevReplayPastBadTag="FALSE", DevScanAbort="FALSE", DevAsyncLastBadCommit="FALSE")
+             DevReplayPastBadTag="FALSE", DevScanAbort="FALSE", DevAsyncLastBadCommit="FALSE", DevCommitBreakContinues="FALSE")
     c.update(kw)
     return c
 
 
 def model_check(ev, vd, tier, work):
     runs = []
-    lit = dict(DevReplayPastBadTag="TRUE", DevScanAbort="TRUE", DevAsyncLastBadCommit="TRUE")
+    lit = dict(DevReplayPastBadTag="TRUE", DevScanAbort="TRUE", DevAsyncLastBadCommit="TRUE", DevCommitBreakContinues="TRUE")
     if tier == "quick":
         runs.append(("property-conforming transcription, csum v3", mc_constants(), ["ReplayExact", "PassesAgree", "GroundTruthSound", "TypeOK"], None, None))
         runs.append(("literal transcription, csum v3 + async, 2 damages", mc_constants(Async=1, MaxDmg=2, L=5, **lit), ["ReplayExactOrDev", "PassesAgree"], None, None))
